@@ -1,7 +1,7 @@
 """C17 - hierarchical clustering (clauses: SELECT on the merge step and the linkage update functions, GUARD on mean)"""
 import re
 from engines import classify_selection, float_div_sites
-from prov import Prov, params_of
+from prov import Prov, params_of, field_names
 
 CLAIM = ("(SELECT) the merge step (`closest_clusters`) selects the pair with the MINIMUM distance component; the update function handed to the "
          "arithmetic clustering by `Linkage::single` is a min selection, by `Linkage::complete` a max selection, and by `Linkage::average` the "
@@ -422,6 +422,117 @@ def run(ck, prog, ctx):
     check_getters(ck, "GETTER", prog, r"^src/stats/linkage/cluster\.rs$", floor=2)
 
     # ---- constructors: a field named like a parameter is initialised from that parameter, not from a sibling of the same type
+    # ------------------------------------------------------------------ STATE: the pair iterator (utils::Combinations)
+    # all unordered pairs (i, j), i < j, of the non-None slots, in lexicographic order: the state (idx1, idx2) is propagated as affine
+    # values over the fields of *self (lint/fieldaffine.py)
+    ck.rule("STATE", "the pair iterator's state machine: which slots are tested and yielded, and how (idx1, idx2) advance on each arm (FIELDSTATE)")
+    from fieldaffine import FieldAffine, fmt as fa_fmt
+    from fractions import Fraction as _Fr
+    cn = prog.body("<utils::Combinations<'a, T> as std::iter::Iterator>::next")
+    if ck.anchor("STATE", "Combinations::next", cn):
+        fa = FieldAffine(cn)
+        if not fa.ok:
+            ck.undecided("STATE", "combinations/next", "Combinations::next contains a loop: the field-state propagation does not apply", where=cn.where())
+        else:
+            I1, I2 = {"f0:idx1": _Fr(1)}, {"f0:idx2": _Fr(1)}
+            def plus(a, c):
+                out = dict(a)
+                if c:
+                    out[()] = _Fr(c)
+                return out
+            # slot accesses  &(*inner)[_t]
+            acc = {}
+            for pos, st in cn.stmts():
+                if st.k == "assign" and st.rv["k"] == "ref" and st.place.is_local():
+                    es = [e for e in st.rv["place"].fields() if e != "*"]
+                    if len(es) == 1 and es[0][0] == "idx":
+                        acc[st.place.local] = (pos, fa.local_at(pos, es[0][1]), st.line)
+            def slot_of_call(t):
+                if t.args and t.args[0].place is not None and t.args[0].place.is_local() and t.args[0].place.local in acc:
+                    return acc[t.args[0].place.local]
+                return None
+            tests = [slot_of_call(t) for bi, t in cn.calls() if t.callee.method in ("is_none", "is_some")]
+            tests = [x for x in tests if x is not None]
+            takes = {}
+            for bi, t in cn.calls():
+                if t.callee.method == "as_ref":
+                    x = slot_of_call(t)
+                    if x is not None:
+                        takes[bi] = x
+            # the yielded pair
+            somes = {st.rv["ops"][0].place.local for pos, st in cn.stmts() if st.k == "assign" and st.place.local == 0 and st.rv["k"] == "agg" and st.rv.get("variant") == "Some" and st.rv["ops"] and st.rv["ops"][0].place is not None}
+            ylds = [(pos, st) for pos, st in cn.stmts() if st.k == "assign" and st.rv["k"] == "agg" and st.rv.get("agg") == "tuple" and len(st.rv["ops"]) == 2 and st.place.is_local() and st.place.local in somes]
+            if len(ylds) != 1 or len(takes) < 2:
+                ck.undecided("STATE", "combinations/yield", "construction of the yielded pair not recognised", where=cn.where())
+            else:
+                pos, st = ylds[0]
+                comp = []
+                for o in st.rv["ops"]:
+                    bbs = sorted({a[4] for a in pvn.of_operand(cn, o) if a[0] == "call" and a[3] == cn.id and a[4] in takes})
+                    comp.append(takes[bbs[0]][1] if len(bbs) == 1 else None)
+                ok = comp[0] == I1 and comp[1] == I2
+                ck.ob("STATE", "combinations/yield", ok, "Combinations::next yields (inner[%s], inner[%s]) in terms of the state at entry (expected inner[idx1], inner[idx2])" % (fa_fmt(comp[0]), fa_fmt(comp[1])), where=cn.where(st.line))
+                tested = sorted(fa_fmt(x[1]) for x in tests)
+                ck.ob("STATE", "combinations/none-tests", sorted([fa_fmt(I1), fa_fmt(I2)]) == tested, "the slots tested for None are inner[%s] (expected exactly the two yielded slots)" % "], inner[".join(tested), where=cn.where())
+                fs = fa.state_at((pos[0], len(cn.blocks[pos[0]].stmts)))
+                a1, a2 = fs.get(("f", "idx1"), I1), fs.get(("f", "idx2"), I2)
+                ck.ob("STATE", "combinations/advance-after-yield", a1 == I1 and a2 == plus(I2, 1), "after yielding a pair the state is (idx1, idx2) = (%s, %s) (expected (idx1, idx2 + 1))" % (fa_fmt(a1), fa_fmt(a2)), where=cn.where(st.line))
+            # recursion sites: how the state advances when a slot is skipped / a row is finished
+            recs = [(bi, t) for bi, t in cn.calls() if t.callee.res == cn.id]
+            adv = []
+            for bi, t in recs:
+                fs = fa.calls.get(bi, {})
+                adv.append((fa_fmt(fs.get(("f", "idx1"), I1)), fa_fmt(fs.get(("f", "idx2"), I2)), t.line))
+            want_skip = (fa_fmt(I1), fa_fmt(plus(I2, 1)))
+            want_row = (fa_fmt(plus(I1, 1)), fa_fmt(plus(I1, 2)))
+            other = [a for a in adv if (a[0], a[1]) not in (want_skip, want_row)]
+            if not recs:
+                ck.undecided("STATE", "combinations/advance", "no recursive continuation found (the iterator is written as a loop?)", where=cn.where())
+            else:
+                ck.ob("STATE", "combinations/advance", not other and any((a[0], a[1]) == want_row for a in adv), "Combinations::next continues with the states %s (expected (idx1, idx2 + 1) after a skipped slot and (idx1 + 1, idx1 + 2) at the end of a row)" % sorted({(a[0], a[1]) for a in adv}), where=cn.where(other[0][2] if other else recs[0][1].line))
+            # the guards: a row is alive while idx1 < len; within it idx2 is compared with len (Less: a pair, Equal: next row)
+            lts = [(pos, st) for pos, st in cn.stmts() if st.k == "assign" and st.rv["k"] == "bin" and st.rv["op"] in ("Lt", "Ge", "Gt", "Le") and fa.operand_at(pos, st.rv["r"]) == {"LEN": _Fr(1)} and "BoundsCheck" not in str(cn.blocks[pos[0]].term.msg or "")]
+            lts = [(pos, st) for pos, st in lts if not (cn.blocks[pos[0]].term.k == "assert" and cn.blocks[pos[0]].term.cond.place is not None and cn.blocks[pos[0]].term.cond.place.local == st.place.local)]
+            cmpc = [(bi, t) for bi, t in cn.calls() if t.callee.method == "cmp" and len(t.args) == 2]
+            if len(lts) != 1 or len(cmpc) != 1:
+                ck.undecided("STATE", "combinations/guards", "the two comparisons of the state with the slice length are not recognised", where=cn.where())
+            else:
+                pos, st = lts[0]
+                okl = st.rv["op"] == "Lt" and fa.operand_at(pos, st.rv["l"]) == I1
+                cbi, ct = cmpc[0]
+                f0 = set()
+                if ct.args[0].place is not None and ct.args[0].place.is_local():
+                    for kind_, pos_, d_ in pvn.defs(cn).get(ct.args[0].place.local, []):
+                        if kind_ == "assign" and d_.rv["k"] == "ref":
+                            f0 |= {e[1] for e in d_.rv["place"].fields() if e != "*" and e[0] == "f"}
+                len1 = any(a[0] == "call" and a[1].endswith("::len") for a in pvn.of_operand(cn, ct.args[1])) or ("len",) in pvn.of_operand(cn, ct.args[1])
+                okc = f0 == {"idx2"} and len1 and fa.field_at((cbi, len(cn.blocks[cbi].stmts)), "idx2") == I2
+                ck.ob("STATE", "combinations/guards", okl and okc, "the arms are chosen on (idx1 %s len, %s.cmp(len)) (expected (idx1 < len, idx2.cmp(len)))" % (st.rv["op"] if okl else "?", "/".join(sorted(f0)) or "?"), where=cn.where(st.line))
+                # which arm does what
+                sw = [(sb, cn.blocks[sb].term) for sb in sorted(cn.reach) if cn.blocks[sb].term.k == "switch" and any(a[0] == "call" and a[3] == cn.id and a[4] == cbi for a in pvn.of_operand(cn, cn.blocks[sb].term.discr)) and any(a[0] == "discr" for a in pvn.of_operand(cn, cn.blocks[sb].term.discr))]
+                if len(sw) == 1 and ylds and len(ylds) == 1:
+                    sb, x = sw[0]
+                    tg = dict(x.targets)
+                    less, equal = tg.get(255, tg.get(-1)), tg.get(0)
+                    ypos = ylds[0][0][0]
+                    rows = [bi for bi, t in recs if (fa_fmt(fa.calls.get(bi, {}).get(("f", "idx1"), I1)), fa_fmt(fa.calls.get(bi, {}).get(("f", "idx2"), I2))) == want_row]
+                    ok_arms = less is not None and equal is not None and ypos in cn.region((sb, less)) and all(r_ in cn.region((sb, equal)) for r_ in rows) and bool(rows)
+                    ck.ob("STATE", "combinations/arms", ok_arms, "a pair is yielded on the arm idx2 < len, the next row is started on the arm idx2 == len" if ok_arms else "the arms for idx2 < len / idx2 == len do not hold the pair / the row advance", where=cn.where(x.line))
+    cnew = prog.body("utils::Combinations::<'a, T>::new")
+    if cnew is not None:
+        for pos, st in cnew.stmts():
+            if st.k == "assign" and st.rv["k"] == "agg" and st.rv.get("adt", "").endswith("Combinations"):
+                vals = {f: o.int_value() for f, o in zip(st.rv["fields"], st.rv["ops"]) if o.kind == "const"}
+                ck.ob("STATE", "combinations/start", vals.get("idx1") == 0 and vals.get("idx2") == 1, "Combinations::new starts at (idx1, idx2) = (%s, %s) (expected (0, 1))" % (vals.get("idx1"), vals.get("idx2")), where=cnew.where(st.line))
+    cstl = prog.body("utils::Combinations::<'a, T>::set_to_last")
+    if cstl is not None:
+        fa2 = FieldAffine(cstl)
+        rets = [x for x in cstl.reach if cstl.blocks[x].term.k == "return"]
+        if fa2.ok and rets:
+            fs = fa2.state_at((rets[0], len(cstl.blocks[rets[0]].stmts)))
+            a1, a2 = fs.get(("f", "idx1")), fs.get(("f", "idx2"))
+            ck.ob("STATE", "combinations/set_to_last", a1 == {"LEN": _Fr(1), (): _Fr(-1)} and a2 == {}, "set_to_last positions the iterator at (idx1, idx2) = (%s, %s) (expected (len - 1, 0): the pairs of the LAST slot with every earlier one)" % (fa_fmt(a1), fa_fmt(a2)), where=cstl.where())
+
     # the number of input sets is the length of the collected vector, not an iterator's size hint
     from engines import check_size_hint_counts
     check_size_hint_counts(ck, "ROLE", prog, r"^src/stats/linkage")
